@@ -221,13 +221,44 @@ pub fn run(ctx: &Ctx) -> Report {
         }
         acc = acc.merge(res.acc);
     }
+    // type-code sweep: every 16-bit type code as a raw attribute before and after typed attributes,
+    // followed by every sealing step (a type set that cannot tell two codes apart, or that mistakes a
+    // code for a sealing attribute, refuses or mis-answers here)
+    let sweep = {
+        use rayon::prelude::*;
+        (0..=0xFFFFu32)
+            .into_par_iter()
+            .fold(Acc::default, |mut a, x| {
+                let x = x as u16;
+                if x == wire::MI || x == wire::MI256 || x == wire::FP {
+                    return a; // the builder documents a panic for raw sealing types
+                }
+                // a second code that agrees with x in its low six bits and its top bit
+                let mut alt = x ^ 0x0040;
+                if alt == wire::MI || alt == wire::MI256 || alt == wire::FP {
+                    alt = x ^ 0x0100;
+                }
+                let progs = [
+                    vec![Op::Raw(x, vec![1]), Op::Typed(Kind::Username, b"u".to_vec()), Op::Typed(Kind::Software, b"s".to_vec()), Op::Typed(Kind::Priority, vec![0, 0, 0, 1]), Op::Sha1(0), Op::Sha256(0), Op::Fp],
+                    vec![Op::Typed(Kind::Username, b"u".to_vec()), Op::Typed(Kind::Software, b"s".to_vec()), Op::Raw(x, vec![]), Op::Raw(alt, vec![2, 3]), Op::Fp, Op::Raw(x, vec![9])],
+                ];
+                for ops in progs {
+                    let case = Prog { class: 0, method: 1, tid: TID, ops }.to_case("builder_seq");
+                    crate::props::judge_guarded(judge, &case, &mut a);
+                    a.nontrivial += 1;
+                }
+                a
+            })
+            .reduce(Acc::default, |a, b| a.merge(b))
+    };
+    acc = acc.merge(sweep);
     // the evaluation counters of run_prog re-judge prefixes; transitions is the number of new (state, op) pairs
     Report {
         acc,
         states,
         transitions,
         exhaustive: true,
-        rule: "all sequences up to the depth over {add typed SOFTWARE/USERNAME/PRIORITY/XOR-MAPPED-ADDRESS, add raw 0xff00/0x7f00/SOFTWARE's code, add SHA-1 integrity, add SHA-256 integrity, add fingerprint, into_owned, clone} x {request, error}; states deduplicated on reference builder state + the builder's complete Debug snapshot; distinct_nontrivial = unique states".into(),
+        rule: "all sequences up to the depth over {add typed SOFTWARE/USERNAME/PRIORITY/XOR-MAPPED-ADDRESS, add raw 0xff00/0x7f00/SOFTWARE's code, add SHA-1 integrity, add SHA-256 integrity, add fingerprint, into_owned, clone} x {request, error}; states deduplicated on reference builder state + the builder's complete Debug snapshot; plus, for every 16-bit type code x, two fixed programs that add x as a raw attribute before / after typed attributes, add x ^ 0x40, seal in every way and try x again; distinct_nontrivial = unique states + sweep programs".into(),
         bounds: json!({"depth": depth, "alphabet": 12, "levels": levels}),
         assumptions: vec!["a snapshot difference after a refused operation is an evidence note only (the successor is a new state whose futures are explored)".into()],
         caps_hit: caps,
